@@ -37,6 +37,9 @@ def tasks(tier, seed):
     # the third-party pieces the contracts above lean on, themselves under contract (real installed functions on exact reals)
     from contracts import external_deps
     t += external_deps.softmax_tasks(tier, seed) + external_deps.optimiser_tasks(tier, seed)
+    # B: the same contracts replayed on the real code at a ladder of larger shapes (stand-in for the missing induction over sizes)
+    t.append(("contracts.size_ladder", "task", ("vjp", tier, seed), 1500, "size ladder: back-propagation"))
+    t.append(("contracts.size_ladder", "task", ("mlcl", tier, seed), 1500, "size ladder: constraint injection"))
     return t
 
 
